@@ -26,9 +26,16 @@ for key, b in sorted(blocks.items()):
         # second round: /tmp/seed2/<ID>/out/change1|2.diff are stored as <ID>-3|-4 (C22 had no first round)
         src = f"/tmp/seed2/{ID}/out"; M = str(int(N) - 2) if int(N) >= 3 else N
     if not os.path.exists(f"{src}/change{M}.diff"):
+        # third round: /tmp/seed3/<ID>/out/change1|2.diff are stored as <ID>-3|-4
+        src = f"/tmp/seed3/{ID}/out"; M = str(int(N) - 2) if int(N) >= 3 else N
+    if int(N) >= 5 or (ID == "C22" and int(N) >= 3) or not os.path.exists(f"{src}/change{M}.diff"):
+        # fourth round: /tmp/seed4/<ID>/out/change1|2.diff are stored as <ID>-5|-6 (C22: -3|-4)
+        src = f"/tmp/seed4/{ID}/out"; M = str(int(N) - (2 if ID == "C22" else 4))
+    if not os.path.exists(f"{src}/change{M}.diff"):
         print("sources gone for", key); continue
     os.makedirs(dst + "/demo", exist_ok=True)
-    shutil.copy(f"{src}/change{M}.diff", dst + "/patch.diff")
+    if not os.path.exists(dst + "/patch.diff"):  # an existing patch may have been rebased after a fix: commit in /repo
+        shutil.copy(f"{src}/change{M}.diff", dst + "/patch.diff")
     files = []
     for f in glob.glob(f"{src}/demo{M}/*"):
         if os.path.isfile(f):
